@@ -115,6 +115,49 @@ def gen_src(rng, k, counter):
     return m
 
 
+RT_MARK = "Rtx"      # struct names of mocks that are configured WITH a replace-type: <prefix>Rtx<interface>
+
+
+def is_rt(sname):
+    return sname[2:].startswith(RT_MARK)
+
+
+def gen_rt_src(rng, name="src80"):
+    """A small source package for the interaction of replace-type with the other mocks of an output file:
+    in every output file an EARLIER mock (earlier configs entry or earlier declaration; setting on the configs
+    entry or on the interface) replaces a named type that LATER mocks without the setting use as well, directly
+    and through embedded interfaces.  Mocks with the setting intentionally differ from their interface and are
+    not asserted; all the others must stay assignable."""
+    ext = [e for e in gen_pkgs.EXT if e["name"] != "mock"]
+    a, b = ext[0]["path"], ext[1]["path"]
+    tn = rng.choice(["Key", "Client"])
+    K = named(a, tn)
+    P, S = gen_pkgs._P, gen_pkgs._S
+    err = basic("error")
+    T = {"k": "tparam", "n": "T"}
+
+    def I(n, methods, embeds=(), tparams=()):
+        return {"name": n, "tparams": list(tparams), "methods": methods, "embeds": list(embeds), "exported": True}
+    ifaces = [
+        I("RtA", [{"n": "Get", "sig": S([P("k", K), P("n", basic("int"))], [P("", K), P("", err)])},
+                  {"n": "PutAll", "sig": S([P("ks", {"k": "slice", "e": K})], [], True)}]),
+        I("RtB", [{"n": "Own", "sig": S([P("k", K)], [P("", basic("bool"))])}], [named("", "RtA")]),
+        I("RtC", [{"n": "Mid", "sig": S([P("c", K), P("o", named(a, "Opt"))], [P("", err)])}]),
+        I("RtD", [{"n": "D1", "sig": S([], [P("", K)])}], [named("", "RtC"), named("io", "Closer")]),
+        I("RtE", [{"n": "Each", "sig": S([P("f", {"k": "func", "sig": S([P("", K)], [P("", basic("bool"))])}), P("first", K)], [])}]),
+        I("RtF", [{"n": "Last", "sig": S([], [P("", K), P("", basic("bool"))])}], [named("", "RtE"), {"k": "alias", "pkg": "", "n": "RtAl", "targs": []}]),
+        I("RtG", [{"n": "GetT", "sig": S([P("k", K), P("v", T)], [P("", T), P("", K)])}], tparams=[{"n": "T", "c": basic("any"), "cmp": False}]),
+    ]
+    plan_ = {"RtA": ["R", "P"], "RtB": ["P"], "RtC": ["P", "R", "P2"], "RtD": ["P"], "RtE": "IFACE", "RtF": ["P"], "RtG": ["R", "P"]}
+    if rng.random() < 0.5:
+        plan_["RtA"] = "IFACE"        # the setting on the interface instead of the configs entry
+        plan_["RtE"] = ["R"]
+    return {"mod": MOD, "src": {"path": MOD + "/" + name, "name": name}, "ifaces": ifaces, "ext": ext,
+            "std": gen_pkgs.STD + gen_pkgs.C02_STD, "nonascii": False, "_shadow": True,
+            "extra_decls": list(gen_pkgs.foreign_extra_decls(ext)) + [{"pkg": "", "kind": "alias", "name": "RtAl", "target": named("", "RtC")}],
+            "_rt": {"map": {a: {tn: {"pkg-path": b, "type-name": tn}}}, "plan": plan_}}
+
+
 def mockable(m):
     """The interfaces of the source package that mockery is asked to mock, in the order in which it
     meets them (src<k>.go before zz_extra.go, declaration order): the generated ones and every
@@ -196,7 +239,13 @@ def plan(rng, mod):
             i["_depth"] = embed_depth(table, gen_pkgs.self_type(table[("", i["name"])])) - 1
             entries = []
             r = rng.random()
-            if r < 0.12 and "testify" not in outside:
+            if "_rt" in m:
+                kinds = m["_rt"]["plan"].get(i["name"], ["P"])
+                for t in TEMPLATES:
+                    for pl in PLACEMENTS:
+                        for kd in (["R"] if kinds == "IFACE" else kinds):
+                            entries.append((t, pl, PREFIX[t] + {"R": RT_MARK, "P": "", "P2": "B"}[kd] + i["name"], False))
+            elif r < 0.12 and "testify" not in outside:
                 i["_plain"] = True          # no `configs` key at all: exactly one mock from the package-level settings
                 entries.append(("testify", "in", "Tf" + i["name"], False))
             else:
@@ -244,9 +293,11 @@ def config(mod, root):
                     c["dir"], c["pkgname"] = "{{.InterfaceDir}}", m["src"]["name"] + "_test"
                 else:
                     c["dir"], c["pkgname"] = str(out_dir(root, m, "out")), "mk"
+                if is_rt(sname) and m["_rt"]["plan"].get(i["name"]) != "IFACE":
+                    c["replace-type"] = m["_rt"]["map"]
                 if t == "matryer":
                     td = {}
-                    if skip_ensure(i, pl):
+                    if skip_ensure(i, pl) or is_rt(sname):       # a mock with replace-type intentionally differs from its interface
                         td["skip-ensure"] = True
                     if resets:
                         td["with-resets"] = True
@@ -254,6 +305,8 @@ def config(mod, root):
                         c["template-data"] = td
                 cfgs.append(c)
             ifs[i["name"]] = {"configs": cfgs}
+            if "_rt" in m and m["_rt"]["plan"].get(i["name"]) == "IFACE":
+                ifs[i["name"]]["config"] = {"replace-type": m["_rt"]["map"]}
         if ifs:
             pk[m["src"]["path"]] = {"config": {"template": "testify", "structname": "Tf{{.InterfaceName}}", "filename": FILES[("testify", "in")],
                                                 "dir": "{{.InterfaceDir}}", "pkgname": m["src"]["name"]},
@@ -330,7 +383,7 @@ def assertion_file(rng, m, pl):
     used = set()
     items = []
     for i in m["_mock"]:
-        structs = [(t, s) for (t, p, s, _) in i["_entries"] if p == pl]
+        structs = [(t, s) for (t, p, s, _) in i["_entries"] if p == pl and not is_rt(s)]
         if not structs:
             continue
         tuples = []
@@ -591,6 +644,8 @@ def restrict(mod, sname, iname=None, keep_methods=None, keep_embeds=None):
         for k in [k for k in i if k.startswith("_")]:
             del i[k]
     m2["_shadow"] = m.get("_shadow", False)
+    if "_rt" in m:
+        m2["_rt"] = json.loads(json.dumps(m["_rt"]))
     m2["_only"] = iname if (iname is None or isinstance(iname, list)) else [iname]
     m2["_plan"] = {i["name"]: [list(e) for e in i["_entries"]] for i in m.get("_mock", [])} if "_mock" in m else m.get("_plan", {})
     if iname is not None and not isinstance(iname, list) and (keep_methods is not None or keep_embeds is not None):
@@ -691,7 +746,7 @@ def strip(mod):
     """JSON-able copy without the harness' working fields"""
     def clean(x):
         if isinstance(x, dict):
-            return {k: clean(v) for k, v in x.items() if not k.startswith("_") or k in ("_only", "_plan", "_shadow")}
+            return {k: clean(v) for k, v in x.items() if not k.startswith("_") or k in ("_only", "_plan", "_shadow", "_rt")}
         if isinstance(x, list):
             return [clean(v) for v in x]
         return x
@@ -793,6 +848,11 @@ def stats(mod, hist):
                 bump("types defined from an interface (type B A)")
             if i.get("_plain"):
                 bump("interfaces without a configs list")
+            nrt = len([e for e in i["_entries"] if is_rt(e[2])])
+            if nrt:
+                bump("mocks configured with replace-type (counted, not asserted: they intentionally differ)", nrt)
+            if "_rt" in m and len(i["_entries"]) > nrt:
+                bump("mocks without replace-type in an output file where an earlier mock replaces a type they use", len(i["_entries"]) - nrt)
             bump("configs entries per interface: %d" % (0 if i.get("_plain") else len(i["_entries"])))
             names = [x["n"] for x in i["_ms"]]
             bump("methods in method sets", len(names))
@@ -857,6 +917,7 @@ def check(ctx, only=None):
             srcs = [gen_src(ctx.rng, k, renamed) for k in range(nsrc)]
             for k, m in enumerate(srcs):
                 m["_shadow"] = k % 2 == 0      # every other external test package declares same-named types
+            srcs.append(gen_rt_src(ctx.rng))
             if j == 0:
                 srcs += corpus_srcs()
             mod = {"mod": MOD, "srcs": srcs}
